@@ -14,6 +14,8 @@ while args and args[0].startswith("-"):
         jobs = int(args[1]); args = args[2:]
     elif args[0] == "--tier":
         tier = args[1]; args = args[2:]
+    else:
+        sys.exit(__doc__)
 # one snapshot of /verif for the whole run, so that edits made while the matrix runs do not leak into later jobs
 SNAP = "/tmp/pv/_snapshot_%d" % os.getpid()
 os.makedirs("/tmp/pv", exist_ok=True)
